@@ -350,7 +350,13 @@ func runC04(c decCase, rec *stat.Rec) *stat.Failure {
 
 func runC12(c decCase, rec *stat.Rec) *stat.Failure {
 	rec.Eval()
-	full := ref.DecodeBlock(c.Src, c.DstLen, c.Dict)
+	var full ref.BlockResult
+	if c.HashOut || c.DictZeros > 0 {
+		// (gigabyte-sized cases: the byte-at-a-time reference is not run, the two builds are compared with each other)
+		full.Kind, full.Why = ref.UNSPEC, "reference-not-run(huge case)"
+	} else {
+		full = ref.DecodeBlock(c.Src, c.DstLen, c.Dict)
+	}
 	deep := classifyDec(rec, c, full)
 	a, b := execDecode(c), twinDecode(c)
 	if a.Status == "harness" || b.Status == "harness" {
